@@ -12,6 +12,7 @@ from sfa.model import call_name
 from sfa.model import kwarg
 from sfa.model import norm
 from sfa.model import walk_local
+from sfa import roles
 from sfa.report import Ctx
 
 
@@ -151,3 +152,151 @@ def accumulator_consistency(ctx: Ctx, only: tp.Optional[tp.Sequence[str]] = None
                     ctx.bad(R, f, odd[0], f'`{cell}` is accumulated on one path of the loop and overwritten (`{norm(odd[0])[:70]}`) on another: the carried value means '
                             'two different things, one of the paths loses (or double-counts) what was carried in', key=key)
     ctx.require(n >= (1 if only else 8), 'loops with several updates of one cell')
+
+
+# ---------------------------------------------------------------------------------------
+# symbolic cell counts (linear forms over one symbol)
+
+class _Lin:
+    '''a * D + b, D = the index depth.'''
+
+    def __init__(self, a: int = 0, b: int = 0):
+        self.a, self.b = a, b
+
+    def __add__(self, o: '_Lin') -> '_Lin':
+        return _Lin(self.a + o.a, self.b + o.b)
+
+    def __sub__(self, o: '_Lin') -> '_Lin':
+        return _Lin(self.a - o.a, self.b - o.b)
+
+    def scale(self, k: int) -> '_Lin':
+        return _Lin(self.a * k, self.b * k)
+
+    def __eq__(self, o: object) -> bool:
+        return isinstance(o, _Lin) and (self.a, self.b) == (o.a, o.b)
+
+    def __repr__(self) -> str:
+        if self.a == 0:
+            return str(self.b)
+        return (f'{self.a}*' if self.a != 1 else '') + 'depth' + (f' {"+" if self.b > 0 else "-"} {abs(self.b)}' if self.b else '')
+
+
+def _lin_of(e: ast.expr, depth_names: tp.Set[str], depth_proxies: tp.Set[str]) -> tp.Optional[_Lin]:
+    if isinstance(e, ast.Constant) and isinstance(e.value, int) and not isinstance(e.value, bool):
+        return _Lin(0, e.value)
+    if isinstance(e, ast.UnaryOp) and isinstance(e.op, ast.USub):
+        v = _lin_of(e.operand, depth_names, depth_proxies)
+        return v.scale(-1) if v is not None else None
+    if isinstance(e, ast.Name) and e.id in depth_names:
+        return _Lin(1, 0)
+    if isinstance(e, ast.Call) and call_name(e) == 'len' and e.args and isinstance(e.args[0], ast.Name) and e.args[0].id in depth_proxies:
+        return _Lin(1, 0)
+    if isinstance(e, ast.BinOp) and isinstance(e.op, (ast.Add, ast.Sub)):
+        a, b = _lin_of(e.left, depth_names, depth_proxies), _lin_of(e.right, depth_names, depth_proxies)
+        if a is None or b is None:
+            return None
+        return a + b if isinstance(e.op, ast.Add) else a - b
+    return None
+
+
+def _iter_count(it: ast.expr, depth_names: tp.Set[str], depth_proxies: tp.Set[str]) -> tp.Optional[_Lin]:
+    '''Number of items an iterable yields, as a linear form in the depth.'''
+    if isinstance(it, ast.Call) and call_name(it) == 'range':
+        if len(it.args) == 1:
+            return _lin_of(it.args[0], depth_names, depth_proxies)
+        if len(it.args) == 2:
+            a, b = _lin_of(it.args[0], depth_names, depth_proxies), _lin_of(it.args[1], depth_names, depth_proxies)
+            return b - a if a is not None and b is not None else None
+        return None
+    if isinstance(it, ast.Name) and it.id in depth_proxies:
+        return _Lin(1, 0)
+    if isinstance(it, ast.Subscript) and isinstance(it.value, ast.Name) and it.value.id in depth_proxies and not isinstance(it.slice, ast.Slice):
+        return _Lin(1, 0)          # one row of the 2-D label array: depth cells
+    if isinstance(it, (ast.Tuple, ast.List)):
+        return _Lin(0, len(it.elts))
+    return None
+
+
+def _cells_added(stmts: tp.Sequence[ast.stmt], row: str, depth_names: tp.Set[str], depth_proxies: tp.Set[str]) -> tp.Optional[_Lin]:
+    '''Cells appended to `row` by a statement list (if/else branches must agree), None when not countable.'''
+    total = _Lin(0, 0)
+    for s in stmts:
+        if isinstance(s, ast.Expr) and isinstance(s.value, ast.Call) and isinstance(s.value.func, ast.Attribute) and norm(s.value.func.value) == row:
+            c = s.value
+            if c.func.attr == 'append':
+                total = total + _Lin(0, 1)
+            elif c.func.attr == 'extend' and c.args:
+                a = c.args[0]
+                if isinstance(a, (ast.GeneratorExp, ast.ListComp)) and len(a.generators) == 1 and not a.generators[0].ifs:
+                    k = _iter_count(a.generators[0].iter, depth_names, depth_proxies)
+                else:
+                    k = _iter_count(a, depth_names, depth_proxies)
+                if k is None:
+                    return None
+                total = total + k
+            else:
+                return None
+        elif isinstance(s, ast.For):
+            k = _iter_count(s.iter, depth_names, depth_proxies)
+            per = _cells_added(s.body, row, depth_names, depth_proxies)
+            if k is None or per is None or per.a != 0 or s.orelse:
+                return None
+            total = total + k.scale(per.b)
+        elif isinstance(s, ast.If):
+            a = _cells_added(s.body, row, depth_names, depth_proxies)
+            b = _cells_added(s.orelse, row, depth_names, depth_proxies)
+            if a is None or b is None or not (a == b):
+                return None
+            total = total + a
+        elif isinstance(s, (ast.Pass, ast.Assign, ast.AnnAssign)):
+            continue
+        else:
+            return None
+    return total
+
+
+def record_width(ctx: Ctx) -> None:
+    R = 'I.record-width'
+    ctx.rule(R, 'every record Frame._to_str_records emits has the same width: under include_index each header row opens with exactly `index depth` cells on every one '
+             'of its branches (index names / columns name / blanks) and each data row opens with exactly `index depth` index cells — counted symbolically as linear '
+             'forms in the depth (append = 1, extend over range(a, b) = b - a, a loop over range(n) = n x its body); a header one cell short shifts every column label', floor=4)
+    f = ctx.prog.method('Frame', '_to_str_records', inherited=False)
+    depth_names = set(roles.assigned_from_all(f.node, lambda v: isinstance(v, ast.Attribute) and v.attr == 'depth'))
+    depth_proxies = set(roles.assigned_from_all(f.node, lambda v: isinstance(v, ast.Attribute) and v.attr in ('names', 'values') and isinstance(v.value, ast.Name)
+                                                and v.value.id in set(roles.assigned_from_all(f.node, lambda w: norm(w) == 'self._index')) | {'index'}))
+    ctx.require(bool(depth_names), '_to_str_records reads the index depth')
+    rows = set(roles.assigned_from_all(f.node, lambda v: isinstance(v, ast.List) and not v.elts))
+    n = 0
+    for i in ast.walk(f.node):
+        if not (isinstance(i, ast.If) and norm(i.test) == 'include_index'):
+            continue
+        for row in rows:
+            # an if / elif / else chain directly under `if include_index:` whose every branch appends to `row`
+            chain = [s for s in i.body if isinstance(s, ast.If)]
+            for ch in chain:
+                branches: tp.List[tp.Tuple[str, tp.Sequence[ast.stmt]]] = []
+                cur: tp.Optional[ast.If] = ch
+                while cur is not None:
+                    branches.append((norm(cur.test), cur.body))
+                    if len(cur.orelse) == 1 and isinstance(cur.orelse[0], ast.If):
+                        cur = cur.orelse[0]
+                    else:
+                        if cur.orelse:
+                            branches.append(('else', cur.orelse))
+                        cur = None
+                if not any(row in norm(ast.Module(body=list(b), type_ignores=[])) for _t, b in branches):
+                    continue
+                for test, body in branches:
+                    cnt = _cells_added(body, row, depth_names, depth_proxies)
+                    n += 1
+                    key = f'_to_str_records:{test[:30]}'
+                    # `if index_depth == 1: row.append(x)` contributes 1 = depth under its own guard
+                    single = any(test == f'{d} == 1' for d in depth_names)
+                    if cnt is None:
+                        ctx.unk(R, f, body[0], f'cell count of the `{test}` branch is not a linear form', key=key)
+                    elif cnt == _Lin(1, 0) or (single and cnt == _Lin(0, 1)):
+                        ctx.ok(R, f, body[0], f'the `{test}` branch opens the row with {cnt} cell(s) = the index depth', key=key)
+                    else:
+                        ctx.bad(R, f, body[0], f'the `{test}` branch opens the row with {cnt} cells, not with as many as the index has depths: the rest of the row is shifted '
+                                'against the data rows, so labels and values no longer line up on import', key=key)
+    ctx.require(n >= 4, 'row-opening branches of _to_str_records')
